@@ -2,11 +2,23 @@ package header
 
 import (
 	"net/textproto"
+	"strings"
 )
 
 type KeyValues struct {
 	Key    string
 	Values []string
+}
+
+// canonicalKey returns the form in which keys of an order list and header keys are
+// compared. Header names are canonicalized by textproto.CanonicalMIMEHeaderKey, which
+// leaves pseudo header names such as ":Path" untouched (':' is not a token character),
+// so those are lower-cased to keep the pseudo header order case-insensitive as well.
+func canonicalKey(key string) string {
+	if strings.HasPrefix(key, ":") {
+		return strings.ToLower(key)
+	}
+	return textproto.CanonicalMIMEHeaderKey(key)
 }
 
 type sorter struct {
@@ -17,10 +29,10 @@ type sorter struct {
 func (s *sorter) Len() int      { return len(s.kvs) }
 func (s *sorter) Swap(i, j int) { s.kvs[i], s.kvs[j] = s.kvs[j], s.kvs[i] }
 func (s *sorter) Less(i, j int) bool {
-	if index, ok := s.order[textproto.CanonicalMIMEHeaderKey(s.kvs[i].Key)]; ok {
+	if index, ok := s.order[canonicalKey(s.kvs[i].Key)]; ok {
 		i = index
 	}
-	if index, ok := s.order[textproto.CanonicalMIMEHeaderKey(s.kvs[j].Key)]; ok {
+	if index, ok := s.order[canonicalKey(s.kvs[j].Key)]; ok {
 		j = index
 	}
 	return i < j
@@ -29,7 +41,7 @@ func (s *sorter) Less(i, j int) bool {
 func SortKeyValues(kvs []KeyValues, orderedKeys []string) {
 	order := make(map[string]int)
 	for i, key := range orderedKeys {
-		order[textproto.CanonicalMIMEHeaderKey(key)] = i
+		order[canonicalKey(key)] = i
 	}
 	s := &sorter{
 		order: order,
